@@ -68,6 +68,11 @@ class Prop:
         """Extra builds from the working tree; returns obligations."""
         return []
 
+    def corr_excused(self, case, impl, model):
+        """A model/implementation disagreement that is fully explained by a recorded
+        finding (the model is of the intended dependency behaviour there)."""
+        return False
+
     def prepare(self, cases, impl_lines):
         """Called once with all implementation outputs before the verdicts."""
 
@@ -156,11 +161,13 @@ def run_check(prop: Prop, tier, seed, replay=None):
     seen = set()
     nontriv = 0
     timeouts = 0
+    model_timeouts = 0
     if ok and os.path.exists(C.driver_bin()) and cases:
         dbl = C.db_lines_for(lines)
         rc1, impl, err1 = C.run_lines(C.harness_bin(False), dbl + lines, watchdog=prop.watchdog_s)
-        rc2, drv, err2 = C.run_lines(C.driver_bin(), dbl + lines)
-        impl, drv = impl[len(dbl):], drv[len(dbl):]
+        drv = C.run_driver(lines, header=dbl)
+        rc2, err2 = 0, ""
+        impl = impl[len(dbl):]
         if len(impl) != len(lines):
             obligations.append(("harness answered every case", False, f"{len(impl)}/{len(lines)} rc={rc1} {err1[-300:]}"))
         if len(drv) != len(lines):
@@ -177,7 +184,13 @@ def run_check(prop: Prop, tier, seed, replay=None):
             if impl[i] == "TIMEOUT" and not prop.timeout_is_violation:
                 timeouts += 1
                 continue
-            if prop.observable(impl[i]) != prop.observable(m):
+            if m == "MODEL-TIMEOUT":
+                model_timeouts += 1
+                reason = prop.spec_verdict(c, impl[i], s)
+                if reason:
+                    spec_fail.append((i, c, impl[i], m, s, reason))
+                continue
+            if prop.observable(impl[i]) != prop.observable(m) and not prop.corr_excused(c, impl[i], m):
                 corr_fail.append((i, c, impl[i], m, s))
             reason = prop.spec_verdict(c, impl[i], s)
             if reason:
@@ -274,6 +287,7 @@ def run_check(prop: Prop, tier, seed, replay=None):
             "known_findings_hit": sorted(set(known_hits)),
             "input_distribution": dist,
             "timeouts_discarded": timeouts,
+            "model_timeouts": model_timeouts,
             "samples": samples,
             "traces_validated_against_impl": len(model),
         },
